@@ -783,6 +783,7 @@ func runScenario(sc *scenario) (trace []string, v verdict, counted map[int]bool)
 		case "idle", "late":
 		case "head":
 			b := clients[k].reqBytes(false)
+			w.log.add("snd:%d:f:0", k) // the request is complete now (too late: the handler has given up)
 			clients[k].c.SetWriteDeadline(time.Now().Add(time.Second))
 			clients[k].c.Write(b[len(b)/2:])
 		case "gate":
